@@ -210,7 +210,7 @@ def run(rng, res, tier, shard, nshards):
         res.count('random-graph-orders', len(orders))
         nt = classify(desc, res)
         res.case(digest(desc) if nt else None)
-        if res.evaluations % 293 == 1:
+        if len(res.samples) < 3 and nt:
             res.sample({'nodes': [(nd['type'], nd['defense_status'], nd['existence_status'], (nd['ttc'] or {}).get('name', (nd['ttc'] or {}).get('type'))) for nd in desc['nodes']][:12],
                         'edges': desc['edges'][:30], 'orders': orders[:2]})
         report(f, desc, orders)
